@@ -495,6 +495,8 @@ def run(ctx):
     import check
     n = 128 if ctx.quick else 500
     check.pmap(ctx, 'props.c15', 'one', list(range(n)), case_timeout=240 if ctx.quick else 1200)
+    # correspondence with the Lean model of the call layer of moment / accumulate (PGModel/Api.lean, driver command `api`)
+    check.pmap(ctx, 'props.corr_models', 'one_api', list(range(200, 216 if ctx.quick else 320)), case_timeout=300)
 
 
 def replay(ctx, payload):
